@@ -2,7 +2,11 @@ package main
 
 // Case kind `hist`: a scripted history of request starts / ends, executed event by event on the REAL guns.
 //
-//	hist <keepalive>[:<gun options>] <sc> <max-idle-conns-per-host> <answer-bytes> <instances> <nev> {B<k>|E<k>}*nev
+//	hist <keepalive>[:<gun options>] <sc> <max-idle-conns-per-host> <answer-bytes> <instances> <nev> {B<k>|E<k>|W<ms>}*nev
+//
+// W<ms> (round 7): nothing happens for <ms> milliseconds — between two requests of an instance or while requests are in flight.
+// With the gun option T<ms> (dial.timeout) shorter than the waits, and the gun types http / connect (option k / K: through a
+// tunnel front), this is the timed history of Model/HttpTunnel.v: a connection must outlive the dial timeout.
 //
 // The gun configuration (disable-keep-alives, max-idle-conns-per-host, shared-client block sc = n | d<N> | e<N>) goes through
 // the real config decoder and the registered `http` gun factory; as the engine does, ONE extra gun runs WarmUp and its result
@@ -62,14 +66,19 @@ func runHist(line string) string {
 	type event struct {
 		begin bool
 		k     int
+		wait  int // W<ms>: nothing happens for that long (round 7)
 	}
 	var evs []event
 	for _, t := range f[7:] {
 		k, err := strconv.Atoi(t[1:])
+		if t[0] == 'W' && err == nil && k >= 0 && k <= 5000 {
+			evs = append(evs, event{wait: k})
+			continue
+		}
 		if err != nil || k < 0 || k >= n || (t[0] != 'B' && t[0] != 'E') {
 			return "badcase"
 		}
-		evs = append(evs, event{t[0] == 'B', k})
+		evs = append(evs, event{t[0] == 'B', k, 0})
 	}
 
 	// target
@@ -116,8 +125,17 @@ func runHist(line string) string {
 	path := fmt.Sprintf("/ammo-%d", atomic.AddInt64(&caseNo, 1))
 	_ = afero.WriteFile(fs, path, []byte("/\n"), 0o644)
 	defer fs.Remove(path)
+	target := srv.Listener.Addr().String()
+	if opts.connect { // the connect gun shoots through a tunnel front before the target (tunnel.go)
+		front, err := newTunnelFront(target, opts.connectSSL)
+		if err != nil || !front.start() {
+			return "run=harness-port-lost"
+		}
+		defer front.close()
+		target = "127.0.0.1:" + front.port
+	}
 	gun := map[string]any{
-		"type": "http", "target": srv.Listener.Addr().String(),
+		"type": "http", "target": target,
 		"disable-keep-alives": !ka, "max-idle-conns-per-host": maxIdle,
 	}
 	opts.apply(gun)
@@ -182,6 +200,10 @@ func runHist(line string) string {
 	run := "ok"
 	for _, ev := range evs {
 		k := ev.k
+		if ev.wait > 0 {
+			time.Sleep(time.Duration(ev.wait) * time.Millisecond)
+			continue
+		}
 		if ev.begin {
 			if inflight[k] {
 				run = "not-a-history"
@@ -305,7 +327,28 @@ func genHist(r *vh.Rand) string {
 		}
 	}
 	kaf := vh.B(ka)
-	if o := genOptTokens(r, false); o != "" { // what Shoot does with the answer under these options must not cost the connection
+	o := genOptTokens(r, false) // what Shoot does with the answer under these options must not cost the connection
+	addOpt := func(t string) {
+		if o != "" {
+			o += "."
+		}
+		o += t
+	}
+	if r.Chance(1, 3) { // the connect gun: every connection of the transport model is a tunnel through the front
+		addOpt(r.Pick([]string{"k", "k", "K"}))
+	}
+	if r.Chance(1, 8) {
+		// timed history: a short dial timeout and 1-2 waits longer than it, anywhere in the history (requests in flight or not)
+		t := r.PickInt([]int{250, 300})
+		addOpt(fmt.Sprintf("T%d", t))
+		for w := r.Range(1, 2); w > 0; w-- {
+			at := r.Range(1, len(evs))
+			evs = append(evs[:at], append([]string{fmt.Sprintf("W%d", t+r.PickInt([]int{200, 250}))}, evs[at:]...)...)
+		}
+	} else if r.Chance(1, 6) {
+		addOpt(fmt.Sprintf("T%d", r.PickInt([]int{300, 1000})))
+	}
+	if o != "" {
 		kaf += ":" + o
 	}
 	return fmt.Sprintf("hist %s %s %d %d %d %d %s", kaf, sc, maxIdle, size, n, len(evs), strings.Join(evs, " "))
